@@ -228,7 +228,8 @@ def gen_leaf(t, r: random.Random, strings, top=False):
     if t == "timestamp":
         return r.choice([datetime.datetime(1, 1, 1), datetime.datetime(9999, 12, 31, 23, 59, 59, 999999), EPOCH,
                          datetime.datetime(2020, 1, 2, 3, 4, 5, 678), datetime.datetime(1969, 12, 31, 23, 59, 59, 999999),
-                         EPOCH + datetime.timedelta(microseconds=r.randint(-10 ** 16, 10 ** 17))])
+                         EPOCH + datetime.timedelta(microseconds=r.randint(-10 ** 16, 10 ** 17)),
+                         datetime.datetime(2021, 6, 7, 8, 9, 10, 11, tzinfo=datetime.timezone(datetime.timedelta(hours=r.choice([-8, 0, 2, 5]), minutes=r.choice([0, 30]))))])
     raise ValueError(t)
 
 
@@ -751,6 +752,54 @@ def run(ctx: core.Ctx):
     if dom_fail and proved:
         ctx.broken("theorem-vs-evaluation", "in-domain cell where model and spec evaluate differently: " + dom_fail[0]["coq_case"][:400])
 
+    # ================================================================ (e) where(col == lit(s))
+    n_where = 0
+    wstrings = clean if ctx.tier != "quick" else one_clean(one) + [s for i, s in enumerate(clean) if i % 4 == 0]
+    for bi_w, b in enumerate([wstrings[i:i + per] for i in range(0, len(wstrings), per)]):
+        try:
+            df = session.createDataFrame([(j, s) for j, s in enumerate(b)], ["i", "s"])
+        except Exception as ex:  # noqa
+            ctx.broken("T3:where-setup", str(ex)[:200])
+            break
+        for j, s in enumerate(b):
+            want = sorted(k for k, s2 in enumerate(b) if s2 == s)
+            for mode in ("lit", "bare"):
+                px.log.clear()
+                try:
+                    got = sorted(r[0] for r in df.where(F.col("s") == (F.lit(s) if mode == "lit" else s)).collect())
+                except Exception as ex:  # noqa
+                    got = f"raised {type(ex).__name__}"
+                n_where += 1
+                if px.log and (bi_w < 2 or ctx.tier != "quick") and (j % 2 == 0 or mode == "lit"):
+                    wsql = px.log[-1]
+                    px.log.clear()
+                    try:
+                        df.where(F.col("s") == (F.lit("x") if mode == "lit" else "x")).collect()
+                        bsql = px.log[-1]
+                    except Exception:  # noqa
+                        bsql = ""
+                    cells = [x for j2, s2 in enumerate(b) for x in (j2, s2)] + [s]
+                    stmt_items.append(f"(mkStmt [{'; '.join(py2coq(x) for x in cells)}] {armour(wsql)} {armour(bsql)})")
+                    stmt_meta.append({"kind": "where", "form": mode, "sql": wsql, "base": bsql, "strings": [s]})
+                if got != want:
+                    ctx.deviation(f"C09/where-literal-selects-wrong-rows:{mode}", "where(col == literal) does not select exactly the equal rows",
+                                  {"literal": s, "mode": mode, "rows": b, "selected_ids": got, "expected_ids": want})
+    n_eval += n_where
+    # non-string literals as comparison operands
+    df = session.createDataFrame([(1, 1.5, datetime.date(2020, 1, 2), True, float("inf"))], ["i", "f", "d", "b", "g"])
+    for c, v in (("i", 1), ("f", 1.5), ("d", datetime.date(2020, 1, 2)), ("b", True), ("g", float("inf"))):
+        for mode in ("lit", "bare"):
+            try:
+                got = len(df.where(F.col(c) == (F.lit(v) if mode == "lit" else v)).collect())
+            except Exception as ex:  # noqa
+                got = f"raised {type(ex).__name__}"
+            n_eval += 1
+            if got != 1:
+                sig = "C09/infinity-outside-lit-is-bare-word" if isinstance(v, float) and math.isinf(v) and mode == "bare" \
+                    else f"C09/where-literal-selects-wrong-rows:{mode}:{type(v).__name__}"
+                ctx.deviation(sig, "where(col == literal) does not select the equal row", {"column": c, "literal": repr(v), "mode": mode, "got": got})
+    ctx.log(f"(e) {n_where} where() queries")
+
     # ---- (c) statements
     res = ctx.cases("c09_stmt", H_STMT, stmt_items, per_file=max(12, len(stmt_items) // 14 + 1), result_ty="str")
     n_eval += len(stmt_items)
@@ -783,47 +832,15 @@ def run(ctx: core.Ctx):
         if x is False:
             ctx.deviation(f"C09/schema-type-differs:{m['declared']}", f"df.schema reports {m['reported']} for {m['declared']}", m)
 
-    # ================================================================ (e) where(col == lit(s))
-    n_where = 0
-    wstrings = clean if ctx.tier != "quick" else one_clean(one) + [s for i, s in enumerate(clean) if i % 4 == 0]
-    for b in [wstrings[i:i + per] for i in range(0, len(wstrings), per)]:
-        try:
-            df = session.createDataFrame([(j, s) for j, s in enumerate(b)], ["i", "s"])
-        except Exception as ex:  # noqa
-            ctx.broken("T3:where-setup", str(ex)[:200])
-            break
-        for j, s in enumerate(b):
-            want = sorted(k for k, s2 in enumerate(b) if s2 == s)
-            for mode in ("lit", "bare"):
-                try:
-                    got = sorted(r[0] for r in df.where(F.col("s") == (F.lit(s) if mode == "lit" else s)).collect())
-                except Exception as ex:  # noqa
-                    got = f"raised {type(ex).__name__}"
-                n_where += 1
-                if got != want:
-                    ctx.deviation(f"C09/where-literal-selects-wrong-rows:{mode}", "where(col == literal) does not select exactly the equal rows",
-                                  {"literal": s, "mode": mode, "rows": b, "selected_ids": got, "expected_ids": want})
-    n_eval += n_where
-    # non-string literals as comparison operands
-    df = session.createDataFrame([(1, 1.5, datetime.date(2020, 1, 2), True, float("inf"))], ["i", "f", "d", "b", "g"])
-    for c, v in (("i", 1), ("f", 1.5), ("d", datetime.date(2020, 1, 2)), ("b", True), ("g", float("inf"))):
-        for mode in ("lit", "bare"):
-            try:
-                got = len(df.where(F.col(c) == (F.lit(v) if mode == "lit" else v)).collect())
-            except Exception as ex:  # noqa
-                got = f"raised {type(ex).__name__}"
-            n_eval += 1
-            if got != 1:
-                sig = "C09/infinity-outside-lit-is-bare-word" if isinstance(v, float) and math.isinf(v) and mode == "bare" \
-                    else f"C09/where-literal-selects-wrong-rows:{mode}:{type(v).__name__}"
-                ctx.deviation(sig, "where(col == literal) does not select the equal row", {"column": c, "literal": repr(v), "mode": mode, "got": got})
-    ctx.log(f"(e) {n_where} where() queries")
-
     # ================================================================ (f) PySpark recordings
     n_orc = oracle_cases(ctx, session, F, T, Row)
     n_eval += n_orc
 
+    sig_hist = {}
+    for d in ctx.deviations:
+        sig_hist[d["signature"]] = sig_hist.get(d["signature"], 0) + 1
     ctx.coverage.update({
+        "deviation_signature_histogram": sig_hist,
         "evaluations": n_eval, "distinct_nontrivial": len(nontrivial),
         "rule": "evaluations = Coq-evaluated cases (render/lex checks per string, raw texts, distinct columns, statements, schema "
                 "fields) + where() queries + oracle cases; a cell = (declared type | first-row value, value, collect() result, "
@@ -836,7 +853,7 @@ def run(ctx: core.Ctx):
         "histogram_cell_value_kind": hist_type, "string_sets": hist,
     })
     ctx.assumptions += [
-        "env_ok (Pipeline.v): 31 named sentences about DuckDB 1.2.2's evaluation of leaf literals, its CAST on leaf values and "
+        "env_ok (Pipeline.v): 32 named sentences about DuckDB 1.2.2's evaluation of leaf literals, its CAST on leaf values and "
         "the Python client's conversions (float text<->binary, date/time text, TIMESTAMPTZ under a UTC session) -- premises of "
         "value_roundtrip/untyped_roundtrip, satisfiable (ref_env_ok), exercised by T3 on every leaf kind",
         "Lex.render_quoted / Lex.scan / Lex.lex are my definitions of sqlglot 26.14's DuckDB string/identifier escaping and of "
@@ -868,6 +885,8 @@ ORACLE_SIG = {
     "struct-key-value": "C09/struct-with-key-and-value-fields",
     "lit-inf": "C09/lit-infinity-returns-str", "lit-floatlist": "C09/uncast-nested-float-returns-Decimal",
     "nul-string": "C09/string-contains-NUL",
+    "nan-narrows-column": "C09/nan-literal-is-float32-narrows-column", "nan-narrows-list": "C09/nan-literal-is-float32-narrows-column",
+    "nan-narrows-declared": "C09/nan-literal-is-float32-narrows-column", "operand-inf": "C09/infinity-outside-lit-is-bare-word",
     "name-dashdash-list": "C09/column-name-comment-marker", "name-dashdash-dict-rows": "C09/column-name-comment-marker",
     "ddl-colon": "C09/ddl-colon-kept-in-name", "ddl-struct": "C09/ddl-type-with-comma", "ddl-spaces": "C09/ddl-extra-spaces",
 }
@@ -901,8 +920,9 @@ def oracle_cases(ctx, session, F, T, Row) -> int:
         n += 1
         mine = rec_mod.run_case(session, case, ns)
         ps = case["pyspark"]
+        # the schema of a select(lit(..)) is not a declared one: only rows are compared there
         same = mine["ok"] == ps["ok"] and (not ps["ok"] or (
-            mine["rows"] == ps["rows"] and norm_schema(mine["schema"]) == norm_schema(ps["schema"])))
+            mine["rows"] == ps["rows"] and (bool(case.get("select")) or norm_schema(mine["schema"]) == norm_schema(ps["schema"]))))
         if not same and ps["ok"]:
             sig = ORACLE_SIG.get(case["id"], "C09/differs-from-pyspark:" + case["id"])
             ctx.deviation(sig, "differs from PySpark 3.5.9 (recorded) on a container/schema-form case",
